@@ -2451,6 +2451,23 @@ def m_min(E, st, fid, t, args, dest_ty):
 def m_checked_sub(E, st, fid, t, args, dest_ty):
     a, b = args[0], args[1]
     if a[0] != 'int' or b[0] != 'int':
+        from .interp import to_aff, aff_add, aff_norm
+        ta, tb = to_aff(a), to_aff(b)
+        if ta is not None and tb is not None:
+            # symbolic quantities (remaining lengths in size-hint code): Some(a - b) as an affine value, or None
+            s1 = st.fork()
+            out = []
+            if all(x[0] in ('int', 'slen') for x in (a, b)):
+                c = E.compare(s1, 'Ge', a, b)
+                if c[0] == 'boolc':
+                    ok1 = E.assume_cond(s1, c[1], True)
+                    ok2 = E.assume_cond(st, c[1], False)
+                    if ok1:
+                        out.append(('ret', s1, some(aff_norm(aff_add(ta, tb, -1)))))
+                    if ok2:
+                        out.append(('ret', st, NONE))
+                    return out
+            return [('ret', s1, some(aff_norm(aff_add(ta, tb, -1)))), ('ret', st, NONE)]
         return E.opaque_call(st, fid, t, args, dest_ty)
     out = []
     s1 = st.fork()
